@@ -212,6 +212,66 @@ func refine(v ssa.Value, facts []Fact) ssa.Value {
 	return v
 }
 
+// feasibleSuccs: successors of b when it was entered from pred. A block that branches on a
+// condition about a phi of its own (the phi as a boolean, or phi ==/!= constant) takes only the
+// matching edge when the value flowing in from pred decides it: jump threading. This prunes
+// the infeasible paths that short-circuit lowering, result variables and merged error values create.
+func feasibleSuccs(pred, b *ssa.BasicBlock) []*ssa.BasicBlock {
+	if pred == nil || len(b.Instrs) == 0 {
+		return b.Succs
+	}
+	ifi, ok := b.Instrs[len(b.Instrs)-1].(*ssa.If)
+	if !ok || b.Succs[0] == b.Succs[1] {
+		return b.Succs
+	}
+	idx := -1
+	for i, p := range b.Preds {
+		if p == pred {
+			idx = i
+		}
+	}
+	if idx < 0 {
+		return b.Succs
+	}
+	for _, pol := range []bool{true, false} {
+		phi, contradicts := phiFact(normFact(ifi.Cond, pol))
+		if phi == nil || phi.Block() != b {
+			return b.Succs
+		}
+		if contradicts(phi.Edges[idx]) {
+			// the condition cannot have value pol: the other edge is taken
+			if pol {
+				return b.Succs[1:2]
+			}
+			return b.Succs[:1]
+		}
+	}
+	return b.Succs
+}
+
+// threadFrom follows, from the edge pred→b, the blocks that only merge values and branch on
+// them in a way the arrival edge decides; it returns the edge at which control really lands.
+func threadFrom(pred, b *ssa.BasicBlock) (*ssa.BasicBlock, *ssa.BasicBlock) {
+	for n := 0; n < 8; n++ {
+		for _, in := range b.Instrs {
+			switch in.(type) {
+			case *ssa.Phi, *ssa.BinOp, *ssa.UnOp, *ssa.If, *ssa.DebugRef, *ssa.Convert, *ssa.ChangeType:
+			default:
+				return pred, b
+			}
+			if u, ok := in.(*ssa.UnOp); ok && u.Op != token.NOT {
+				return pred, b
+			}
+		}
+		fs := feasibleSuccs(pred, b)
+		if len(fs) != 1 || len(b.Succs) != 2 {
+			return pred, b
+		}
+		pred, b = b, fs[0]
+	}
+	return pred, b
+}
+
 func constOperand(v ssa.Value) *ssa.Const {
 	for {
 		switch x := v.(type) {
@@ -409,13 +469,20 @@ func instrIndex(in ssa.Instruction) int {
 // satisfying target is reachable along a CFG path on which no instruction
 // satisfying blocker occurs before it. The witness is the target found.
 func reachesWithout(from ssa.Instruction, target, blocker instrPred) ssa.Instruction {
-	type st struct {
-		b *ssa.BasicBlock
-		i int
-	}
-	seen := map[*ssa.BasicBlock]bool{}
-	var work []st
-	work = append(work, st{from.Block(), instrIndex(from) + 1})
+	return walkWithout([]walkState{{nil, from.Block(), instrIndex(from) + 1}}, target, blocker)
+}
+
+type walkState struct {
+	pred *ssa.BasicBlock
+	b    *ssa.BasicBlock
+	i    int
+}
+
+// walkWithout explores the (jump-threaded) CFG from the given states and returns the first
+// target instruction reached on a path that passes no blocker.
+func walkWithout(work []walkState, target, blocker instrPred) ssa.Instruction {
+	type key struct{ pred, b *ssa.BasicBlock }
+	seen := map[key]bool{}
 	for len(work) > 0 {
 		s := work[len(work)-1]
 		work = work[:len(work)-1]
@@ -433,10 +500,11 @@ func reachesWithout(from ssa.Instruction, target, blocker instrPred) ssa.Instruc
 		if blocked {
 			continue
 		}
-		for _, succ := range s.b.Succs {
-			if !seen[succ] {
-				seen[succ] = true
-				work = append(work, st{succ, 0})
+		for _, succ := range feasibleSuccs(s.pred, s.b) {
+			k := key{s.b, succ}
+			if !seen[k] {
+				seen[k] = true
+				work = append(work, walkState{s.b, succ, 0})
 			}
 		}
 	}
@@ -448,33 +516,7 @@ func entryReachesWithout(fn *ssa.Function, target, blocker instrPred) ssa.Instru
 	if len(fn.Blocks) == 0 {
 		return nil
 	}
-	type st struct{ b *ssa.BasicBlock }
-	seen := map[*ssa.BasicBlock]bool{fn.Blocks[0]: true}
-	work := []*ssa.BasicBlock{fn.Blocks[0]}
-	for len(work) > 0 {
-		b := work[len(work)-1]
-		work = work[:len(work)-1]
-		blocked := false
-		for _, in := range b.Instrs {
-			if blocker != nil && blocker(in) {
-				blocked = true
-				break
-			}
-			if target(in) {
-				return in
-			}
-		}
-		if blocked {
-			continue
-		}
-		for _, s := range b.Succs {
-			if !seen[s] {
-				seen[s] = true
-				work = append(work, s)
-			}
-		}
-	}
-	return nil
+	return walkWithout([]walkState{{nil, fn.Blocks[0], 0}}, target, blocker)
 }
 
 func isReturn(in ssa.Instruction) bool {
